@@ -245,6 +245,7 @@ func (m *Manager) BlocksForHistory(history []types.BlockID, maxBlocks uint64) ([
 func (m *Manager) AddBlocks(blocks []types.Block) error {
 	m.mu.Lock()
 	defer m.mu.Unlock()
+	verifHook("AddBlocks")
 	if len(blocks) == 0 {
 		return nil
 	}
@@ -320,6 +321,7 @@ func (m *Manager) AddBlocks(blocks []types.Block) error {
 func (m *Manager) AddValidatedV2Blocks(blocks []types.Block, states []consensus.State) error {
 	m.mu.Lock()
 	defer m.mu.Unlock()
+	verifHook("AddValidatedV2Blocks")
 	if len(blocks) == 0 {
 		return nil
 	} else if len(states) != len(blocks) {
@@ -545,6 +547,7 @@ func (m *Manager) reorgTo(index types.ChainIndex) error {
 func (m *Manager) PruneBlocks(height uint64) {
 	m.mu.Lock()
 	defer m.mu.Unlock()
+	verifHook("PruneBlocks")
 
 	for h := height; h > 0; h-- {
 		index, ok := m.store.BestIndex(h - 1)
@@ -562,6 +565,7 @@ func (m *Manager) PruneBlocks(height uint64) {
 func (m *Manager) UpdatesSince(index types.ChainIndex, maxBlocks int) (rus []RevertUpdate, aus []ApplyUpdate, err error) {
 	m.mu.Lock()
 	defer m.mu.Unlock()
+	verifHook("UpdatesSince")
 	onBestChain := func(index types.ChainIndex) bool {
 		bi, _ := m.store.BestIndex(index.Height)
 		return bi.ID == index.ID || index == types.ChainIndex{}
@@ -1406,6 +1410,7 @@ func (m *Manager) updateV2TransactionProofs(txns []types.V2Transaction, from, to
 func (m *Manager) AddPoolTransactions(txns []types.Transaction) (known bool, err error) {
 	m.mu.Lock()
 	defer m.mu.Unlock()
+	verifHook("AddPoolTransactions")
 	m.revalidatePool()
 
 	if known, err := m.checkTxnSet(txns, nil); known || err != nil {
@@ -1477,6 +1482,7 @@ func (m *Manager) UpdateV2TransactionSet(txns []types.V2Transaction, from, to ty
 func (m *Manager) AddV2PoolTransactions(basis types.ChainIndex, txns []types.V2Transaction) (known bool, _ error) {
 	m.mu.Lock()
 	defer m.mu.Unlock()
+	verifHook("AddV2PoolTransactions")
 	m.revalidatePool()
 
 	// take ownership of Merkle proofs, and update them to the current tip
